@@ -225,6 +225,8 @@ func checkMsgRoundTrip(k *mon.Case, cmd string, msg wire.Message, sp *genSpec, p
 		k.Count("rt.v2."+cmd, 1)
 	}
 	nvar := len(ref.VarInts)
+	k.Sample(map[string]any{"family": "msg.roundtrip", "cmd": cmd, "pver": pver, "enc": encName(enc), "payload_len": len(want),
+		"compactsize_fields": nvar, "payload": hexN(want, 96)})
 	k.Eval(mon.Sig("rt", cmd, pc, encName(enc), len(want), nvar, mon.SigBytes(want[:min(len(want), 64)])), len(want) > 0)
 }
 
